@@ -252,8 +252,32 @@ def free_list(F, R):
             R.ob('PAIR', key + 'pop-front-resets-back-link-of-new-head', bool(pw), 'the function advances the head (%d head write(s)) and resets the new head\'s `.previous` (%d write(s))' % (len(hw), len(pw)), hw[0][0].where, f)
         if pw and nw and not param_is_new_head and any(f.prov_operand(['c', [int(pl[-2][2:-1])]]).root[0] == 'arg' for _, pl in nw if isinstance(pl[-2], str) and pl[-2].startswith('[_')):
             # unlink of an arbitrary node given as argument: the head must be considered
-            R.ob('PAIR', key + 'unlink-considers-the-head', reads_head and bool(hw), 'the function unlinks the entry of its argument (writes %d `.next`, %d `.previous`) and %s the list head: unlinking the head itself must advance it, otherwise insert() hands out the occupied key' % (len(nw), len(pw), 'reads and updates' if (reads_head and hw) else 'never looks at'), nw[0][0].where, f)
+            R.ob('PAIR', key + 'unlink-considers-the-head', bool(hw), 'the function unlinks the entry of its argument (writes %d `.next`, %d `.previous`) and %s the list head: unlinking the head itself must advance it, otherwise insert() hands out the occupied key' % (len(nw), len(pw), 'updates' if hw else 'never updates'), nw[0][0].where, f)
     R.floor('free-list operations of MetaSlotMap', seen, 3)
+
+
+def key_bounds(F, R):
+    """SlotMap: a key is refused with `key >= capacity` (keys index arrays of length capacity): a `>` comparison lets key == capacity through to the index."""
+    n = 0
+    for f in F.find_fns(r'^iceoryx2_bb_container::slotmap::MetaSlotMap::<.*>::\w+$'):
+        for b in range(len(f.blocks)):
+            t = f.blocks[b]['t']
+            if t[0] != 'switch':
+                continue
+            c = sym_nstr(sym(f, t[1]))
+            m = re.match(r'^\((.*) (>=|>|<|<=) (.*)\)$', c)
+            if not m:
+                continue
+            lhs, op, rhs = m.groups()
+            if not re.search(r'capacity_impl\(|idx_to_data\)?\.len|len\(.*idx_to_data', rhs + lhs) or 'len_impl' in c:
+                continue
+            keyside = lhs if re.search(r'capacity_impl\(|idx_to_data', rhs) else rhs
+            if not re.search(r'\bkey\b|\bidx\b|\.0$', keyside):
+                continue
+            n += 1
+            strict_ok = (op == '>=' and keyside == lhs) or (op == '<' and keyside == lhs) or (op == '<=' and keyside == rhs) or (op == '>' and keyside == rhs)
+            R.ob('CMP', 'CMP::%s::key-bound-is-inclusive' % fnkey(f), strict_ok, 'bounds test `%s`: a key equal to the capacity must be refused (it indexes arrays of that length)' % c[:100], f.term_site(b).where, f)
+    R.floor('key-vs-capacity tests in MetaSlotMap', n, 3)
 
 
 def check(F, R, tier):
@@ -262,6 +286,7 @@ def check(F, R, tier):
     drop_coverage(F, R)
     ring_index(F, R)
     free_list(F, R)
+    key_bounds(F, R)
 
 
 LEVEL_TEXT = ("Decides structural clauses over all storage flavours: wrappers forward to the same-named operation, refusals are never reached after "
